@@ -138,6 +138,20 @@ def qub_rhs_float(cb, qubtol):
     return cb['psi'] + gTp + 0.5 * cb['L'] * cb['pTp'] + (1 + abs(cb['psi'])) * qubtol
 
 
+def init_interrupted(r, cbs, k, flavor):
+    """Callback k is the single (k = 0, final) callback of a solve whose stop request landed no later than
+    the last call of the initialisation (its status is Interrupted unless another exit condition outranks
+    it in the status chain)."""
+    if k != 0 or len(cbs) != 1:
+        return False
+    t0 = LP.stoptick(r)
+    if t0 is None:
+        return False
+    if flavor in ('panoc', 'zerofpr'):
+        return t0 <= LP.init_ticks(r)
+    return True          # PANOC-OCP: one callback, zero iterations, a stop request landed
+
+
 def qub_holds(cb, qubtol):
     """Exact-rational quadratic upper bound from the callback's vectors, with a slack of a few ulps
     of the operands (the library evaluated the same expression in doubles).
@@ -250,6 +264,11 @@ def monitor(op_line, out_line, st, flavor='panoc'):
             bump('qub_holds')
         elif cb['L'] >= P['Lmax']:
             bump('qub_violated_but_L_at_Lmax')
+        elif init_interrupted(r, cbs, k, flavor):
+            # the initial step-size loop polls the stop flag (C19) and was left through that poll: the
+            # initial iterate, reported once with k = 0 and status Interrupted, was never brought to satisfy
+            # the bound — the exception the theorems carry (`InitInterrupted ∧ k = 0`)
+            bump('qub_excluded_initial_loop_interrupted')
         elif rec[k] and flavor == 'panoc':
             # the reported iterate was rewritten with the new γ, L before the callback; ψ(x̂) is stale
             bump('qub_violated_on_rewritten_iterate')
@@ -407,6 +426,10 @@ def monitor_pantr(op_line, out_line, st):
                 bump('qub_holds')
             elif cb['L'] >= P['Lmax']:
                 bump('qub_violated_but_L_at_Lmax')
+            elif k == len(cbs) - 1 and LP.stoptick(r) is not None:
+                # PANTR's step-size loops poll the stop flag: the final callback of a solve with a visible stop request may
+                # report an iterate whose backtracking was cut short (Props/C05_Pantr.pantr_reported_qub)
+                bump('qub_excluded_backtracking_interrupted')
             else:
                 return (f'callback {k}: ψ(x̂)={lhs!r} > ψ+∇ψᵀp+½L‖p‖²+margin={rhs!r} (slack {slack:.3g}) '
                         f'although L={cb["L"]!r} < L_max={P["Lmax"]!r}')
